@@ -1,23 +1,29 @@
-"""C02 - floating-point expressions follow IEEE-754 in every rounding mode (bounded only)."""
+"""C02 - floating-point expressions follow IEEE-754 in every rounding mode (rewriters proved, concrete backend bounded)."""
 from vf.common import task
 
-LEVEL = "exploration"
-LEVEL_TEXT = ("Bounded stand-in, never counted as proved: the concrete float backend works on Python doubles, Decimal and struct, which the contract "
+LEVEL = "other"
+LEVEL_TEXT = ("Mixed.  PROVED: the two floating-point rewriters of simplifications.py (fptofp_simplifier, fptobv_simplifier) executed on symbolic "
+              "nodes with z3 FloatingPoint denotations - a rewrite of fpToFP / fpToIEEEBV equals the written conversion for every value, both "
+              "formats, all five rounding modes, nested one level.  BOUNDED stand-in, never counted as proved: the concrete float backend works on Python doubles, Decimal and struct, which the contract "
               "engine's proxies (integers, Booleans, expression nodes) do not model, and z3's FloatingPoint solver does not decide multiplication, "
               "division and square root obligations at binary64 within budget.  Every FP constructor is folded on boundary operands (signed zeros, "
               "subnormals, extremes, infinities, NaN, rounding ties, integers beyond 2^53/2^24) in all five rounding modes and both sorts, and "
               "compared (NaN as NaN, otherwise bit for bit) with z3's exact evaluation of the same SMT-LIB term on numerals.")
-TECHNIQUE = "bounded boundary-value enumeration against z3's exact evaluation of ground FloatingPoint terms (stand-in)"
+EXPLANATION = LEVEL_TEXT
+TECHNIQUE = "pyvc proof of the fp rewriters over z3 FloatingPoint denotations + bounded boundary-value enumeration against z3's exact evaluation of ground FloatingPoint terms (stand-in)"
 RULE = "boundary operands x rounding modes per constructor and sort; nontrivial = the SMT-LIB value is specified and was compared"
-FUNCTIONS = []
+FUNCTIONS = ["simplifications.fptofp_simplifier", "simplifications.fptobv_simplifier"]
 TRUSTED = ["z3 evaluates ground FloatingPoint terms exactly"]
-ASSUMPTIONS = ["NaN bit patterns and float-to-integer conversions of NaN, infinities or out-of-range values are exempt"]
+ASSUMPTIONS = ["rewriter proofs: nested shapes one level deep, integer sources of 8 and 64 bits; fpToIEEEBV is a relation (any bit pattern of the float)",
+               "NaN bit patterns and float-to-integer conversions of NaN, infinities or out-of-range values are exempt"]
 
 
 def tasks(tier, seed=0):
     from vf import common
     kl = sorted({l for f in common.findings_for("C02") for l in f.get("labels", [])})
-    out = []
+    F = "vf.contracts.fpsimp"
+    out = [task(F, "ob_fptofp", f"fpsimp.fptofp_simplifier[{form}]/meaning", ["C02"], form=form, tier=tier) for form in ("bv", "fp", "int")]
+    out.append(task(F, "ob_fptobv", "fpsimp.fptobv_simplifier/bit-pattern", ["C02"], tier=tier))
     for sort in ("DOUBLE", "FLOAT"):
         for g, n in (("arith", 6), ("unary-cmp", 1), ("conv", 1)):
             for sh in range(n):
